@@ -5,6 +5,7 @@ import (
 	"fmt"
 	"sort"
 	"strings"
+	"sync"
 
 	"github.com/indexsupply/shovel/shovel"
 
@@ -167,6 +168,31 @@ func c14One(c *vk.Case, set c14Set, seed uint64) {
 	chain := simnode.NewChain(nextChainID(), content)
 	chain.Grow(4)
 	node := simnode.Global().NewNode(chain)
+	if r.Bool() {
+		// a load balancer with a backend that is a block or two behind: a few of the requests are answered from the
+		// shorter chain (null blocks, receipts and traces, no logs for the newest blocks). Such an answer may fail the
+		// step; it must never be taken for "this block has nothing of the kind"
+		var lmu sync.Mutex
+		lr, left := r.Fork(), 5
+		node.SetHook(func(info *simnode.ReqInfo) simnode.Action {
+			lmu.Lock()
+			defer lmu.Unlock()
+			act := simnode.Action{ElemErr: -1}
+			if info.Poller || left == 0 || !lr.Bool() {
+				return act
+			}
+			for _, cl := range info.Calls {
+				if cl.BlockArg == "latest" {
+					return act // the head the task is told stays the real one (the run ends after three idle steps)
+				}
+			}
+			left--
+			act.Behind = lr.Range(1, 2)
+			c.Obs("requests_answered_by_lagging_backend", 1)
+			return act
+		})
+		c.Obs("runs_with_lagging_backend", 1)
+	}
 	spec := &scen.Spec{Sources: []scen.SourceSpec{{Name: namePoolSrc[0], ChainID: 9, Batch: 2, Concurrency: 1, Poll: "1h", Node: node}}, Decls: []*model.Decl{d}}
 	env, err := scen.New(spec, false)
 	if err != nil {
@@ -189,7 +215,7 @@ func c14One(c *vk.Case, set c14Set, seed uint64) {
 	pm.first = 1
 	idle := 0
 	lastErr := ""
-	for i := 0; i < 20 && idle < 3; i++ {
+	for i := 0; i < 40 && idle < 3; i++ {
 		res := env.Step(task)
 		if res.Panic != "" {
 			fr := vk.TopShovelFrame(res.Panic)
